@@ -98,19 +98,68 @@ Theorem C09_clauses_hold_of_model : forall scale offset mn mx signed len,
 Proof. exact model_satisfies_clauses. Qed.
 Print Assumptions C09_clauses_hold_of_model.
 
-(** ** round trip *)
-(** the clause "a physical value inside the representable range is reproduced with an error
-    BELOW one factor step" is false for exact reals on the faithful model: scale 0.1, offset -40,
-    unsigned 16 bits, no declared range, p = -39.6: the setter stores 3, the getter returns -39.7,
-    |back - p| = 1.0000000000000142 steps (truncation of 3.99999999999998 plus the rounding of
-    3*0.1-40).  The error is below TWO steps. *)
+(** ** round trip, signals of at most 32 bits whose step float64 resolves:
+      resolves_f scale offset = true  :=  2^-960 <= |scale| <= 2^960, offset = 0 or of such
+      magnitude, |offset| <= 2^50 * |scale|   (lemma [resolves_inv] gives the real inequalities) *)
+(** raw -> physical -> raw: a raw value r of the signal whose linear value
+    fl(fl(r*scale)+offset) lies inside the declared range (or no range is declared) comes back
+    from the setter within one least-significant step.  Proof: forward error analysis of the four
+    roundings (|q - r| <= 1), saturation towards an interval containing r, truncation. *)
+Theorem C09_roundtrip_raw : forall scale offset mn mx signed len r,
+  c09_class_f scale offset mn mx = true -> resolves_f scale offset = true ->
+  (1 <= len <= 32)%Z -> (raw_lo signed len <= r <= raw_hi signed len)%Z ->
+  in_range_f mn mx (Bplus mode_NE (Bmult mode_NE (f64_of_Z r) scale) offset) = true ->
+  (Z.abs (setter_raw_f scale offset mn mx signed len (to_physical_f scale offset mn mx (f64_of_Z r)) - r) <= 1)%Z.
+Proof. intros scale offset mn mx signed len r Hc Hr. exact (raw_roundtrip scale offset mn mx Hc Hr signed len r). Qed.
+Print Assumptions C09_roundtrip_raw.
+
+(** the clause the driver evaluates is an instance of it *)
+Theorem C09_roundtrip_raw_clause : forall scale offset mn mx signed len r,
+  c09_class_f scale offset mn mx = true -> (1 <= len <= 64)%Z ->
+  rt_raw_ok_f scale offset mn mx signed len r
+    (setter_raw_f scale offset mn mx signed len (to_physical_f scale offset mn mx (f64_of_Z r))) = true.
+Proof. exact rt_raw_ok_model. Qed.
+Print Assumptions C09_roundtrip_raw_clause.
+
+(** physical -> raw -> physical.  The clause of the property text, "a physical value inside the
+    representable range is reproduced with an error BELOW one factor step", is false for exact
+    reals on the faithful model: scale 0.1, offset -40, unsigned 16 bits, no declared range,
+    p = -39.6: FromPhysical gives 3.99999999999998, the setter stores 3, the getter returns -39.7,
+    |back - p| = 1.0000000000000142 steps (truncation plus the rounding of 3*0.1-40). *)
 Theorem C09_roundtrip_physical_refuted :
   c09_class_f w_scale w_offset fzero fzero = true /\ resolves_f w_scale w_offset = true /\
   in_range_f fzero fzero w_p = true /\ in_representable_f w_scale w_offset false 16 w_p = true /\
   Rabs (B2R w_scale) <= Rabs (B2R w_back - B2R w_p) < 2 * Rabs (B2R w_scale).
 Proof. exact rt_phys_strict_refuted. Qed.
 
-(** the comparison the driver evaluates for the physical round trip is the comparison of reals *)
+(** what holds instead (proved): the error is below TWO factor steps, for every finite p inside
+    the declared range and inside the representable physical range
+      in_representable_f scale offset signed len p  :=  p lies between the physical values
+      fl(fl(lo*scale)+offset) and fl(fl(hi*scale)+offset) of the raw extremes (either order).
+    The forward error analysis gives 1 (truncation) + 0.14 (division side, saturation) + 0.13
+    (multiplication side) steps; the full statement of the property text with bound ONE is the
+    refuted theorem above, this is its [_partial] replacement. *)
+Theorem C09_roundtrip_physical_partial : forall scale offset mn mx signed len p,
+  c09_class_f scale offset mn mx = true -> resolves_f scale offset = true ->
+  (1 <= len <= 32)%Z -> is_finite p = true -> in_range_f mn mx p = true ->
+  in_representable_f scale offset signed len p = true ->
+  let back := to_physical_f scale offset mn mx (f64_of_Z (setter_raw_f scale offset mn mx signed len p)) in
+  is_finite back = true /\ Rabs (B2R back - B2R p) < 2 * Rabs (B2R scale).
+Proof.
+  intros scale offset mn mx signed len p Hc Hr.
+  exact (phys_roundtrip scale offset mn mx Hc Hr signed len p).
+Qed.
+Print Assumptions C09_roundtrip_physical_partial.
+
+(** the decidable clause the driver evaluates (bound two) holds of the model, and means exactly
+    that inequality of reals *)
+Theorem C09_roundtrip_physical_clause : forall scale offset mn mx signed len p,
+  c09_class_f scale offset mn mx = true -> (1 <= len)%Z ->
+  rt_phys_ok_f 2 scale offset mn mx signed len p
+    (to_physical_f scale offset mn mx (f64_of_Z (setter_raw_f scale offset mn mx signed len p))) = true.
+Proof. exact rt_phys_ok_model. Qed.
+Print Assumptions C09_roundtrip_physical_clause.
+
 Theorem C09_roundtrip_physical_clause_meaning : forall steps scale offset mn mx signed len p back,
   (len <=? 32)%Z = true -> resolves_f scale offset = true -> is_finite p = true ->
   in_range_f mn mx p = true -> in_representable_f scale offset signed len p = true ->
@@ -120,14 +169,22 @@ Theorem C09_roundtrip_physical_clause_meaning : forall steps scale offset mn mx 
 Proof. exact rt_phys_ok_f_spec. Qed.
 Print Assumptions C09_roundtrip_physical_clause_meaning.
 
+(** the resolvability hypothesis in real terms *)
+Theorem C09_resolves_meaning : forall scale offset : f64,
+  is_finite scale = true -> is_finite offset = true -> resolves_f scale offset = true ->
+  bpow radix2 (-960) <= Rabs (B2R scale) <= bpow radix2 960 /\
+  Rabs (B2R offset) <= bpow radix2 50 * Rabs (B2R scale).
+Proof. exact resolves_inv. Qed.
+Print Assumptions C09_resolves_meaning.
+
 (** non-vacuity: a signal of the class (scale 0.1, offset -40, range [-40, 215], signed 16 bits),
-    a clamped conversion, saturation of +Inf, a strict monotone pair *)
+    which resolves; a clamped conversion, saturation of +Inf, a strict monotone pair *)
 Example C09_nonvacuous :
   let scale := f64_of_bits 0x3fb999999999999a in
   let offset := f64_of_bits 0xc044000000000000 in
   let mn := f64_of_bits 0xc044000000000000 in
   let mx := f64_of_bits 0x406ae00000000000 in
-  c09_class_f scale offset mn mx = true /\ declared_f mn mx = true /\
+  c09_class_f scale offset mn mx = true /\ declared_f mn mx = true /\ resolves_f scale offset = true /\
   bits_of_f64 (to_physical_f scale offset mn mx (f64_of_Z 30000)) = 0x406ae00000000000%Z /\
   bits_of_f64 (to_physical_f scale offset mn mx (f64_of_Z 123)) = 0xc03bb33333333333%Z /\
   setter_raw_f scale offset mn mx true 16 (B754_infinity false) = 2550%Z /\
